@@ -425,6 +425,40 @@ def rel_universal(ctx, x0, dt, mu_scale=1.0):
     return True
 
 
+def rel_universal_inverse(ctx, x0, dt, vscale):
+    """Forward then backward through the universal-variable solver returns the start state - for closed orbits and, with the
+    velocity scaled beyond escape (vscale > sqrt(2) on a circular-like speed), for hyperbolic ones; invariants are conserved."""
+    _init()
+    from resonaate.physics.orbits.kepler import solveKeplerProblemUniversal
+
+    x0 = np.asarray(x0, dtype=float)
+    xs = np.concatenate([x0[:3], x0[3:] * vscale])
+    w = _w("universal_inverse", x0=x0, dt=dt, vscale=vscale)
+    energy = 0.5 * float(xs[3:] @ xs[3:]) - MU / float(np.linalg.norm(xs[:3]))
+    kind = "hyperbolic" if energy > 0 else "elliptic"
+    if abs(energy) < 0.1 * MU / float(np.linalg.norm(xs[:3])):
+        # near-parabolic band: the Newton iteration of the universal formulation is known to converge slowly there (seen: 99
+        # iterations exhausted on the backward leg at e = 0.94, r = 90000 km); not sampled, counted
+        ctx.count("universal_inverse_skipped_near_parabolic")
+        return False
+    y = _call(ctx, lambda: solveKeplerProblemUniversal(xs.copy(), dt), "universal-" + kind + "-forward", w, "universal")
+    if y is None:
+        return False
+    y = np.asarray(y, dtype=float)
+    z = _call(ctx, lambda: solveKeplerProblemUniversal(y.copy(), -dt), "universal-" + kind + "-backward", w, "universal")
+    if z is None:
+        return False
+    z = np.asarray(z, dtype=float)
+    er = float(np.linalg.norm(z[:3] - xs[:3])) / float(np.linalg.norm(xs[:3]))
+    ev = float(np.linalg.norm(z[3:] - xs[3:])) / float(np.linalg.norm(xs[3:]))
+    e2 = 0.5 * float(y[3:] @ y[3:]) - MU / float(np.linalg.norm(y[:3]))
+    h1, h2 = np.cross(xs[:3], xs[3:]), np.cross(y[:3], y[3:])
+    ok = er <= 1e-7 and ev <= 1e-7 and abs(e2 - energy) <= 1e-8 * max(abs(energy), MU / float(np.linalg.norm(xs[:3]))) and float(np.linalg.norm(h2 - h1)) <= 1e-8 * float(np.linalg.norm(h1))
+    ctx.check(ok, "universal-forward-backward-" + kind, f"solveKeplerProblemUniversal on a {kind} orbit: forward {dt:.6g} s then backward does not return the start state "
+              f"(|dr|/r = {er:.2e}, |dv|/v = {ev:.2e}) or does not conserve energy / angular momentum", w, mon="universal")
+    return True
+
+
 def rel_compose(ctx, spec, x0, t0, t1, t2, how="uniform", ttype="float"):
     x0 = np.asarray(x0, dtype=float)
     w = _w("compose", spec=spec, x0=x0, t0=t0, t1=t1, t2=t2, how=how, ttype=ttype)
@@ -1021,6 +1055,7 @@ def _tb_case(ctx, rng, i):
         if rng.random() < 0.2:
             dt = 86400.0
         done = rel_universal(ctx, x0, dt, rng.choice([1.0, 1.0, 398600.8 / 398600.4418, 0.5, 2.0, 4902.800066 / 398600.4418]))
+        rel_universal_inverse(ctx, x0, min(dt, 7200.0), rng.choice([1.0, 1.0, 1.6, 2.0, 3.0]))
         key = (rel, _rnd(x0), dt)
         smp = {"relation": "solveKeplerProblemUniversal vs closed form", "x0": _rnd(x0), "dt": dt}
     elif rel in ("compose_u", "compose_e"):
@@ -1237,6 +1272,8 @@ def replay(ctx, w):
         rel_kepler(ctx, w["spec"], w["x0"], w["t0"], w["t2"], w.get("ttype", "float"))
     elif k == "universal":
         rel_universal(ctx, w["x0"], w["dt"], w.get("mu_scale", 1.0))
+    elif k == "universal_inverse":
+        rel_universal_inverse(ctx, w["x0"], w["dt"], w["vscale"])
     elif k == "compose":
         rel_compose(ctx, w["spec"], w["x0"], w["t0"], w["t1"], w["t2"], w.get("how", "uniform"), w.get("ttype", "float"))
     elif k == "batch":
